@@ -191,7 +191,7 @@ def twin_float(ctx, sc, clause_prefix, tol_scale=64.0):
     sce = copy.copy(sc)
     sce.numeric = "fraction"
     scf = copy.copy(sc)
-    scf.numeric = "float"
+    scf.numeric = "np" if sc.seed % 3 == 0 else "float"
     try:
         _, xe = G.run_scenario(sce, keep_raw=True)
         _, xf = G.run_scenario(scf, keep_raw=True)
